@@ -179,7 +179,7 @@ class Mir:
                 if not fn.endswith('.rs'):
                     continue
                 txt = open(os.path.join(root, fn), encoding='utf-8').read()
-                for m in re.finditer(r'^\s*(?:pub(?:\([a-z]+\))? )?enum (\w+)\s*\{(.*?)^\s*\}', txt, re.S | re.M):
+                for m in re.finditer(r'^\s*(?:pub(?:\([a-z]+\))? )?enum (\w+)(?:<[^>]*>)?\s*\{(.*?)^\s*\}', txt, re.S | re.M):
                     body = re.sub(r'//[^\n]*', '', m.group(2))
                     vs = []
                     for part in split_top(body):
